@@ -124,6 +124,8 @@ def make_rows(rng, spec, k, integers=False):
     rows = []
     for _ in range(k):
         row = M.spec_point(spec, [M.rand_prob(rng) for _ in spec["dims"]])
+        if not all(math.isfinite(v) and abs(v) < 1e6 for v in row):
+            row = [1.0 + 0.5 * j for j in range(len(row))]
         if integers:
             row = [float(max(1, min(40, round(v)))) for v in row]
         elif rng.random() < 0.15:
@@ -610,25 +612,38 @@ def run(ctx):
     # minimal restatement of the dtype clause (the documented example shape: model.pdf([3, 7]))
     s0 = simple_2d_spec()
     report(o_int_pdf(s0, [[3.0, 7.0]]), {"oracle": "int_pdf", "spec": s0, "rows": [[3.0, 7.0]]})
-    # (3) real nquad on 2-D models with a conditional second variable (slow: a handful)
+    # (3) real nquad on 2-D models with a conditional second variable (slow: a handful, inside a time budget)
+    import time
+    t_real = time.time()
+    budget = ctx.n(35, 600)
+    left = lambda: time.time() - t_real < budget
     two = [sp for sp in specs if M.structure(sp) == (None, 0)]
     nreal = ctx.n(3, 25)
-    nquad_checked = 0
+    nquad_checked = skipped = 0
     worst_icdf = None
+    report(o_int_marginal(s0, 1, [5, 8], "marginal_pdf"), {"oracle": "int_marginal", "spec": s0, "dim": 1, "xs": [5, 8], "method": "marginal_pdf"})
+    report(o_int_marginal(s0, 1, [5, 8], "marginal_cdf"), {"oracle": "int_marginal", "spec": s0, "dim": 1, "xs": [5, 8], "method": "marginal_cdf"})
     for sp in two[:nreal]:
+        if not left():
+            skipped += 1
+            continue
         row = make_rows(rng, sp, 1)[0]
         nquad_checked += 1
         report(o_integrals_2d(sp, row), {"oracle": "integrals_2d", "spec": sp, "row": row})
-    report(o_int_marginal(s0, 1, [5, 8], "marginal_pdf"), {"oracle": "int_marginal", "spec": s0, "dim": 1, "xs": [5, 8], "method": "marginal_pdf"})
-    report(o_int_marginal(s0, 1, [5, 8], "marginal_cdf"), {"oracle": "int_marginal", "spec": s0, "dim": 1, "xs": [5, 8], "method": "marginal_cdf"})
     for sp in two[nreal:nreal + ctx.n(1, 6)]:
+        if not left():
+            skipped += 1
+            continue
         report(o_mass_2d(sp), {"oracle": "mass_2d", "spec": sp})
     for sp in two[-ctx.n(1, 5):]:
+        if not left():
+            skipped += 1
+            continue
         seed = rng.randrange(2 ** 31)
         o, worst = o_icdf_2d(ctx, sp, seed)
         worst_icdf = worst if worst_icdf is None else max(worst_icdf, worst or 0)
         report(o, {"oracle": "icdf_2d", "spec": sp, "seed": seed})
-    ctx.notes["search"] = {"product_oracle_models": nprod, "int_vs_float_models": nint, "real_nquad_2d_models": nquad_checked,
+    ctx.notes["search"] = {"product_oracle_models": nprod, "int_vs_float_models": nint, "real_nquad_2d_models": nquad_checked, "real_nquad_skipped_for_time": skipped,
                            "marginal_icdf_worst_|F(x_p)-p|": worst_icdf,
                            "3-D real nquad": "not run (one call takes minutes); 3-D/4-D integrands are checked through the probing stub"}
     ctx.cov["rule"] = ("random 2-D/3-D (a few 4-D) hierarchical models over Weibull / log-normal / log-normal(norm-fit) / exponentiated Weibull / "
